@@ -141,6 +141,8 @@ pub fn toverlap_pool() -> Vec<TermSpec> {
         TermSpec::regex("Raorb", "(a|b)", &["a", "b"]),
         TermSpec::regex("Rw", "\\w+", &["abc", "cab", "c"]),
         TermSpec::regex("Rbc", "b+c?", &["b", "bc", "bbc"]),
+        // top-level alternation: must be anchored as a whole (`^(?:ab|b)`, not `^ab|b`)
+        TermSpec::regex("Ralt", "ab|c", &["ab", "c"]),
     ]
 }
 
@@ -428,7 +430,13 @@ pub fn derive_tokens(g: &Bnf, tape: &mut Cursor, max_depth: usize, max_len: usiz
     let mut out = vec![];
     // explicit stack of (symbol, depth)
     let mut stack: Vec<(Sym, usize)> = vec![(Sym::N(g.start), 0)];
+    let mut expansions = 0usize;
     while let Some((s, d)) = stack.pop() {
+        expansions += 1;
+        if expansions > 20_000 {
+            // unproductive nonterminal (cannot happen for generated grammars; safety net)
+            break;
+        }
         match s {
             Sym::T(t) => out.push(t),
             Sym::N(n) => {
@@ -1091,7 +1099,9 @@ pub fn build_ast(tape: &[u16]) -> GrammarSpec {
             1 => vec![tsym(T_ID)],
             2 => {
                 if i > first_body && c.pick(2) == 0 {
-                    let j = first_body + c.pick(i - first_body + 1);
+                    // strictly earlier rule (a self reference here could leave the rule without
+                    // a productive alternative)
+                    let j = first_body + c.pick(i - first_body);
                     vec![tinline(T_LPAR, false), SymUse::plain(Sym::N(j)), tinline(T_RPAR, true)]
                 } else {
                     vec![tsym(T_NUM)]
@@ -1171,7 +1181,11 @@ pub fn build_ast(tape: &[u16]) -> GrammarSpec {
                     rec.push(SymUse::plain(Sym::N(i)));
                 }
                 alts.push(mk(rec));
-                alts.push(mk(if empty_base { vec![] } else { it }));
+                // documented @vec patterns: `A: A B | B`, `A: B A | B` and `A: A B | B | EMPTY`
+                alts.push(mk(it));
+                if empty_base {
+                    alts.push(mk(vec![]));
+                }
             }
             4 => {
                 // sugar
